@@ -7,7 +7,7 @@ props=$(python3 -c "import json; print(' '.join(c['property_id'] for c in json.l
 tmp=$(mktemp -d /tmp/gbv-all-XXXX)
 i=0
 for p in $props; do
-  ( bin/gbv check $p --out $tmp/$p > $tmp/$p.log 2>&1; echo "$p exit=$? $(tail -1 $tmp/$p.log)" ) &
+  ( bin/gbv check $p > $tmp/$p.log 2>&1; echo "$p exit=$? $(tail -1 $tmp/$p.log)" ) &
   i=$((i+1)); if [ $((i % 4)) -eq 0 ]; then wait; fi
 done
 wait
